@@ -703,6 +703,7 @@ class imp_disj_macro(Macro):
 
     def eval(self, goal, pts):
         # goal: A --> B
+        assert goal.is_implies(), "imp_disj: goal is not an implication"
         A, B = goal.arg1, goal.arg
         disjA = set(strip_disj(A))
         disjB = set(strip_disj(B))
